@@ -133,8 +133,19 @@ def run_case(cs):
                     break
                 h = _parent_hist(h, hists)
         patterns = list(ignoreref.DEFAULTS)
+    root_arg = None
+    if rng.random() < 0.15:
+        # the root is reached through a link to a folder above it (a volume mounted elsewhere and linked into the
+        # project folder): the histories and the references between them are the same
+        via = os.path.join(d, "via-link")
+        if not os.path.lexists(via):
+            os.symlink(d, via)
+        root_arg = os.path.join(via, os.path.basename(root))
+        extra = [root_arg + e[len(root):] if e.startswith(root + "/") else e for e in extra]
+        cs.count("root_reached_through_link_to_a_folder_above")
     with audit.record() as ev:
-        r, new, before, after = hist.create(root, formats, extra)
+        # (a working directory is given with the link so that the root is not respelled relative to the *resolved* folder)
+        r, new, before, after = hist.create(root, formats, extra, root_arg=root_arg, cwd=d if root_arg else None)
     steps.append(f"create {mode} {formats} {[e for e in extra if not e.startswith('/')]} => {r.exit}")
     cs.evaluated()
     ctx = {"steps": steps, "histories": hists, "mode": mode, "sel": sel}
